@@ -57,7 +57,8 @@ def fixed_script(kind_, which):
         pol, K = "no_sampling", 2
     if kind_ == "gillespie":
         # choose t_max so that a handful of events happen; the seed is searched so that completion needs K steps
-        for sd_ in range(1, 400):
+        hint = os.environ.get("VERIF_C10_GSEED%d" % which)
+        for sd_ in ([int(hint)] if hint else []) + list(range(1, 400)):
             sc = st.RDScript(system, t_sample=[0], t_max=0.05 if which == 1 else 0.03, time_step=0.01, sampling_policy=pol,
                              rng_seed=sd_, init_state_processing="none")
             e = engines.get(kind_)
@@ -72,6 +73,12 @@ def fixed_script(kind_, which):
     dt = 0.01
     return st.RDScript(system, t_sample=[0], t_max=(K - 0.5) * dt, time_step=dt, sampling_policy=pol, rng_seed=7,
                        init_state_processing="none")
+
+
+def find_gillespie_seeds(case):
+    use_repo()
+    engines.install()
+    return {w: fixed_script("gillespie", w).rng_seed for w in (1, 2)}
 
 
 def raw_state(lib, size):
@@ -377,16 +384,34 @@ def first_divergence(seq, alone, together):
     return None
 
 
-def other_engine_touched_native_state(seq, pos, who):
-    """between `who`'s last set-up before pos and pos, did the other engine object make a native-state-changing call?"""
-    last_setup = None
-    for p in range(pos, -1, -1):
-        if seq[p][0] == who and seq[p][1].startswith("setup"):
-            last_setup = p
-            break
-    if last_setup is None:
-        last_setup = 0
-    return any(w != who and c in NATIVE_STATE_CHANGING for (w, c) in seq[last_setup:pos])
+def other_engine_touched_native_state(seq, pos, who=None):
+    """Mechanism feature for the known finding: at or before position `pos`, did some engine object use the native
+    library while the library's single simulation belonged to ANOTHER object (set up or released by it)?
+    Computed from the call sequence alone (never from the outcome).  An object 'believes' it is live after its own
+    setup until its own finalize; the library's simulation belongs to whoever called setup last and is gone after
+    anybody's finalize."""
+    owner, freed = None, True
+    live = {}
+    for p, (w, c) in enumerate(seq[:pos + 1]):
+        believes_live = live.get(w, False)
+        if c not in ("is_complete",) and not c.startswith("setup"):
+            if c == "finalize":
+                if believes_live and (owner != w or freed):
+                    return True
+                if (not believes_live) and not freed and owner != w:
+                    return True       # releases the other object's simulation
+            elif believes_live and (owner != w or freed):
+                return True
+        if c.startswith("setup"):
+            if not freed and owner is not None and owner != w and live.get(owner, False):
+                # replaces another live object's simulation: that object is now looking at foreign state
+                pass
+            owner, freed = w, False
+            live[w] = True
+        elif c == "finalize":
+            live[w] = False
+            freed = True
+    return False
 
 
 # ---------------------------------------------------------------------------------------------
@@ -502,6 +527,11 @@ def main():
     pdir = tempfile.mkdtemp(prefix="c10-", dir=SCRATCH)
     sd = seed()
     try:
+        gs = pmap("vf.checks.c10:find_gillespie_seeds", [{}], cpu_budget=120)[0]
+        if gs["status"] == "ok":
+            for w, v in gs["value"].items():
+                os.environ["VERIF_C10_GSEED%s" % w] = str(v)
+        import time as _t; _t0=_t.time(); _ph=lambda n: sys.stderr.write('phase %s %.1fs\n' % (n, _t.time()-_t0))
         # ---------------- (A) ----------------
         cases = []
         for kind_ in engines.KINDS:
@@ -512,6 +542,7 @@ def main():
                     cases.append({"kind": kind_, "first": first, "prefix": list(prefix), "length": L,
                                   "progress_file": os.path.join(pdir, "A%d" % len(cases))})
         res = pmap("vf.checks.c10:run_batch", cases, cpu_budget=120 if not thorough else 900, share_size=4)
+        _ph('A-exhaustive')
         # random longer single-engine sequences
         rr0 = random.Random(sd)
         long_cases = []
@@ -577,6 +608,7 @@ def main():
                               mech={"what": "exception", "single_engine": True})
             else:
                 run.inconclusive_because("batch %s: %s" % (c["prefix"], r_["status"]))
+        _ph('A-long')
         # ---------------- (B) ----------------
         nB = 3000 if thorough else 300
         casesB = [{"seed": sd, "idx": i, "phase": "alone"} for i in range(nB)]
@@ -584,7 +616,7 @@ def main():
         casesT = [{"seed": sd, "idx": i, "phase": "together", "progress_file": os.path.join(pdir, "B%d" % i)} for i in range(nB)]
         # each interleaving in its own fresh process: a use-after-free caused by one (known finding) must not be able
         # to corrupt the heap under the next one
-        resT = pmap("vf.checks.c10:run_two_engines", casesT, cpu_budget=120, fresh=True)
+        resT = pmap("vf.checks.c10:run_two_engines", casesT, cpu_budget=15, fresh=True)
         for c, a, t in zip(casesB, resA, resT):
             if a["status"] != "ok":
                 # the single-engine projection itself failed: a single-engine lifecycle defect
@@ -603,7 +635,7 @@ def main():
                     run.count("two_engine_interleavings_without_divergence")
                     continue
                 pos, who, call = dv
-                touched = other_engine_touched_native_state(seq, pos, who)
+                touched = other_engine_touched_native_state(seq, pos)
                 run.violation("engine objects are not independent",
                               {"case": c, "kinds": a["value"]["kinds"], "seq": ["%s.%s" % (w, x) for w, x in seq],
                                "first_diverging_call": pos, "engine_object": who, "call": call},
@@ -615,7 +647,7 @@ def main():
                 except Exception:
                     pos = len(seq) - 1
                 who = seq[pos][0]
-                touched = other_engine_touched_native_state(seq, pos, who)
+                touched = other_engine_touched_native_state(seq, pos)
                 run.violation("engine objects are not independent (%s)" % t["status"],
                               {"case": c, "kinds": a["value"]["kinds"], "seq": ["%s.%s" % (w, x) for w, x in seq],
                                "failing_call": pos, "engine_object": who, "call": seq[pos][1], "signal": t.get("signal")},
@@ -628,6 +660,7 @@ def main():
                                     "other_engine_touched_native_state_since_last_setup": True})
             else:
                 run.inconclusive_because("two-engine case %s: %s" % (c, t["status"]))
+        _ph('B')
         # ---------------- (C) ----------------
         casesC = []
         nC = 12000 if thorough else 1500
@@ -661,6 +694,7 @@ def main():
                               mech={"what": "exception", "family": c["family"], "isp": c["isp"]})
             else:
                 run.inconclusive_because("termination case %s: %s" % (c["idx"], r_["status"]))
+        _ph('C')
         # ---------------- (D) ----------------
         casesD = [{"seed": sd, "idx": i, "n": 60 if thorough else 25} for i in range(64 if thorough else 32)]
         for c, r_ in zip(casesD, pmap("vf.checks.c10:run_fixed_step_count", casesD, cpu_budget=120)):
